@@ -262,6 +262,57 @@ func init() {
 		exec: func(w *World, st *Step) {}})
 }
 
+func init() {
+	// zcpair: load a bitmap zero-copy over a read-only buffer, give a second bitmap a chunk of a chosen
+	// kind on one of its keys, and combine the two in both orders, statically and in place
+	reg(&opDef{name: "zcpair", tag: "C08",
+		gen: func(w *World, r *Rng) (Step, bool) {
+			if w.regionsLive() >= maxRegions-1 {
+				return Step{}, false
+			}
+			a := w.nonEmptySlot(r)
+			ks := w.B[a].M.Keys()
+			if len(ks) == 0 {
+				return Step{}, false
+			}
+			k := ks[r.Intn(len(ks))]
+			z := (a + 1 + r.Intn(len(w.B)-1)) % len(w.B)
+			b := (z + 1 + r.Intn(len(w.B)-1)) % len(w.B)
+			if b == a {
+				b = (b + 1) % len(w.B)
+				if b == z {
+					b = (b + 1) % len(w.B)
+				}
+			}
+			d := w.slot(r)
+			var steps []Step
+			if r.Chance(1, 3) {
+				steps = append(steps, Step{Op: "freeze", S: []int{z, a}, A: []uint64{r.U64()}})
+			} else {
+				steps = append(steps, Step{Op: "rt", S: []int{z, a}, A: []uint64{uint64(r.Intn(4)), uint64(1 + r.Intn(2)), r.U64(), 0}})
+			}
+			steps = append(steps, w.kindSteps(r, b, k)...)
+			op := uint64(r.Intn(4))
+			switch r.Intn(4) {
+			case 0:
+				steps = append(steps, Step{Op: "binop", S: []int{d, z, b}, A: []uint64{op}})
+			case 1:
+				steps = append(steps, Step{Op: "binop", S: []int{d, b, z}, A: []uint64{op}})
+			case 2:
+				steps = append(steps, Step{Op: "ibinop", S: []int{b, z}, A: []uint64{op}})
+			default:
+				steps = append(steps, Step{Op: "ibinop", S: []int{z, b}, A: []uint64{op}})
+			}
+			if r.Bool() {
+				steps = append(steps, Step{Op: "agg", S: []int{d, z, b, z}, A: []uint64{uint64(r.Intn(7)), uint64(workerPool[r.Intn(len(workerPool))])}})
+			}
+			w.pending = append(w.pending, steps[1:]...)
+			w.probe("zcpair-scenario")
+			return steps[0], true
+		},
+		exec: func(w *World, st *Step) {}})
+}
+
 func itoa(n int) string {
 	if n == 0 {
 		return "0"
